@@ -169,6 +169,19 @@ def run_dag_case(v, case, rng, scratch, keys):
                 fn = {f.__name__ for f in sub.functions}
                 if fn != set(need):
                     v.count("diag_subpipeline_keeps_other_functions")  # diagnostic: only *invocations* are demanded (call log)
+                # the sub-pipeline is an object of its own: changing ITS defaults / bound values afterwards must not reach the
+                # pipeline it was cut from (every later request of this case is answered by that original object)
+                try:
+                    with quiet():
+                        for r_ in case["defaults"]:
+                            if r_ in sub.defaults:
+                                sub.update_defaults({r_: "SUBPIPELINE-DEFAULT"})
+                        for f_ in sub.functions:
+                            if f_._bound:
+                                f_.update_bound({next(iter(f_._bound)): "SUBPIPELINE-BOUND"})
+                    v.count("subpipelines_mutated_afterwards")
+                except Exception:  # noqa: BLE001
+                    pass
             # (b)/(c) map with output_names / auto_subpipeline
             for how in ["output_names", "auto_subpipeline"]:
                 if label == "member-of-tuple":
